@@ -1,6 +1,7 @@
 (* C10 — code generation is gated by verification.  Statements only. *)
 From Coq Require Import String ZArith List Bool.
 From FcpV Require Import Schema.Types Layout.Packed Verifier.Checks Codegen.Pipeline Codegen.PipelineProofs.
+From FcpV Require Py.BufferLib Verifier.DriverLib Verifier.DriverProofs gen.PyVerifier.
 Import ListNotations.
 
 (* whichever check rejects (any category, any position, general or plug-in:
@@ -39,6 +40,16 @@ Theorem other_files_untouched :
   forall files fs name, ~ In name (map fst files) -> fs_get name (fs_write_all files fs) = fs_get name fs.
 Proof. exact untouched_names_keep_content. Qed.
 Print Assumptions other_files_untouched.
+
+(* the verdict that gates generation is the source's: the translated class Verifier (gen/PyVerifier.v), run over the translated checks
+   on the table that make_general_verifier() + the plug-in's register_checks build, returns `verify pl t` - the verdict
+   manager_generate branches on *)
+Theorem source_gate_verdict_is_the_model :
+  forall pl t, exists checks,
+    DriverProofs.registered pl = BufferLib.POk checks /\
+    PyVerifier.py_verify checks t = DriverProofs.vres_of (verify pl t).
+Proof. exact DriverProofs.driver_is_model. Qed.
+Print Assumptions source_gate_verdict_is_the_model.
 
 Example c10_nonvacuous :
   let t := {| t_structs := [ {| sname := "S"; sfields := [] |} ]; t_enums := []; t_impls := [];
